@@ -14,6 +14,7 @@ import SkfemVerif.Drv.Affine
 import SkfemVerif.Drv.Cache
 import SkfemVerif.Drv.Blocks
 import SkfemVerif.Drv.Refine
+import SkfemVerif.Drv.Finder
 /-
 Registry of driver ops contributed by the per-area files: add an import and `++ xxxOps`.
 -/
@@ -21,6 +22,6 @@ open Lean
 namespace Drv
 
 def allOps : List (String × (Json → Option Json)) :=
-  bcOps ++ quadOps ++ asmOps ++ polyOps ++ integrationOps ++ meshioOps ++ conformityOps ++ surgeryOps ++ dofLookupOps ++ refineUniformOps ++ autodiffOps ++ affineOps ++ cacheOps ++ blocksOps ++ refineOps
+  bcOps ++ quadOps ++ asmOps ++ polyOps ++ integrationOps ++ meshioOps ++ conformityOps ++ surgeryOps ++ dofLookupOps ++ refineUniformOps ++ autodiffOps ++ affineOps ++ cacheOps ++ blocksOps ++ refineOps ++ finderOps
 
 end Drv
